@@ -4,4 +4,12 @@ go 1.23.0
 
 require github.com/ARM-software/golang-utils/utils v0.0.0
 
+require (
+	github.com/go-faker/faker/v4 v4.6.0 // indirect
+	github.com/petermattis/goid v0.0.0-20240813172612-4fcff4a6cae7 // indirect
+	github.com/sasha-s/go-deadlock v0.3.5 // indirect
+	go.uber.org/atomic v1.11.0 // indirect
+	golang.org/x/text v0.24.0 // indirect
+)
+
 replace github.com/ARM-software/golang-utils/utils => /repo/utils
